@@ -29,7 +29,8 @@ func (gs GenesisState) Validate() error {
 	allowedBidderIndexMap := make(map[string]struct{})
 
 	for _, elem := range gs.AllowedBidderList {
-		index := fmt.Sprint(elem.AuctionId)
+		// an allowed bidder is identified by its auction and its address
+		index := fmt.Sprintf("%d/%s", elem.AuctionId, elem.Bidder)
 		if _, ok := allowedBidderIndexMap[index]; ok {
 			return fmt.Errorf("duplicated index for allowedBidder")
 		}
@@ -43,7 +44,8 @@ func (gs GenesisState) Validate() error {
 	vestingQueueIndexMap := make(map[string]struct{})
 
 	for _, elem := range gs.VestingQueueList {
-		index := fmt.Sprint(elem.AuctionId)
+		// a vesting queue is identified by its auction and its release time
+		index := fmt.Sprintf("%d/%d", elem.AuctionId, elem.ReleaseTime.UnixNano())
 		if _, ok := vestingQueueIndexMap[index]; ok {
 			return fmt.Errorf("duplicated index for vestingQueue")
 		}
@@ -54,12 +56,14 @@ func (gs GenesisState) Validate() error {
 		}
 	}
 	// Check for duplicated ID in bid
-	bidIdMap := make(map[uint64]bool)
+	// bid ids are assigned per auction
+	bidIdMap := make(map[string]bool)
 	for _, elem := range gs.BidList {
-		if _, ok := bidIdMap[elem.Id]; ok {
+		index := fmt.Sprintf("%d/%d", elem.AuctionId, elem.Id)
+		if _, ok := bidIdMap[index]; ok {
 			return fmt.Errorf("duplicated id for bid")
 		}
-		bidIdMap[elem.Id] = true
+		bidIdMap[index] = true
 
 		if err := elem.Validate(); err != nil {
 			return err
